@@ -76,6 +76,47 @@ int sqfs_istream_skip(sqfs_istream_t *strm, sqfs_u64 size)
 	return 0;
 }
 
+/* The raw stream hooks, in case the record reader (or a refactored version of
+ * it) goes below the stream API: the stream contract of c12_istream_env.h over
+ * the same ghost - a window of ANY length >= 1 (never more than is left), end
+ * of stream only when nothing is left, or an error; advance consumes at most
+ * the window. Window contents are not modelled (the reader must not look at
+ * padding bytes). */
+static sqfs_u8 g_win[8];
+static size_t g_win_len;
+
+static int rec_get_buffered_data(sqfs_istream_t *strm, const sqfs_u8 **out,
+				 size_t *size, size_t want)
+{
+	uint64_t left = g_rem - g_cons;
+	size_t n;
+
+	(void)want;
+	VERIF_ASSERT(strm == &g_in_obj && !g_err, "C12.record.skip_args");
+	if (verif_nd_bool("get.fails")) {
+		int e = verif_nd_int("get.err");
+		VERIF_ASSUME(e < 0);
+		g_err = true;
+		return e;
+	}
+	if (left == 0)
+		return 1;
+	n = verif_nd_size("get.window");
+	VERIF_ASSUME(n >= 1 && n <= left);
+	g_win_len = n;
+	*out = g_win;
+	*size = n;
+	return 0;
+}
+
+static void rec_advance_buffer(sqfs_istream_t *strm, size_t count)
+{
+	VERIF_ASSERT(strm == &g_in_obj && count <= g_win_len,
+		     "C12.record.skip_args");
+	g_cons += count;
+	g_win_len -= count;
+}
+
 static const char *c12_in_filename(sqfs_istream_t *strm) { (void)strm; return "in"; }
 void sqfs_perror(const char *file, const char *action, int error_code)
 { (void)file; (void)action; (void)error_code; }
@@ -93,6 +134,9 @@ void harness(void)
 
 	VERIF_ASSUME(size < RD_MAX - 1);
 	g_in_obj.get_filename = c12_in_filename;
+	g_in_obj.get_buffered_data = rec_get_buffered_data;
+	g_in_obj.advance_buffer = rec_advance_buffer;
+	g_win_len = 0;
 	g_rem = verif_nd_u64("rem");
 	g_cons = 0;
 	g_err = false;
@@ -114,8 +158,11 @@ void harness(void)
 		VERIF_ASSERT(ret[size] == '\0', "C12.record.content");
 		if (g_w < size)
 			VERIF_ASSERT(g_wdst == ret + g_w, "C12.record.content");
-		VERIF_ASSERT(g_skips == (pad ? 1 : 0) && g_skip_n == pad &&
-			     g_cons == (g_rem < size + pad ? g_rem : size + pad),
+		/* however the padding is dropped (one sqfs_istream_skip today):
+		 * exactly payload + padding are consumed, whatever the chunking */
+		VERIF_ASSERT(g_cons == (g_rem < size + pad ? g_rem : size + pad),
+			     "C12.record.padding");
+		VERIF_ASSERT(g_skips == 0 || (g_skips == 1 && g_skip_n == pad),
 			     "C12.record.padding");
 		free(ret);
 	} else {
